@@ -45,12 +45,22 @@ def toC(v):
 
 
 class ArrTr:
-    def __init__(self, arrays):
+    def __init__(self, arrays, tree=None, opaque=None, opaque_calls=(), size_attrs=(), identity_calls=(), identity_attrs=(),
+                 inline=None):
         # arrays: list of (python name, 'R' | 'C') ; element tuple nests to the left: ((a, b), c) ...
         self.arrays = arrays
-        self.env = {}          # local name -> ('ast', node) | ('val', V) | ('len',)
+        self.env = {}          # local name -> ('ast', node) | ('val', V) | ('len',) | ('leaf', k)
         self.lets = []
         self.nsum = 0
+        self.tree = tree
+        self.opaque = dict(opaque or {})            # local name -> array number, for `name = <opaque call>(...)`
+        self.opaque_calls = set(opaque_calls)       # dotted names of the calls that may produce such an array
+        self.size_attrs = set(size_attrs)           # dotted names that denote the common array length (data.size)
+        self.identity_calls = set(identity_calls)   # ensure_array / ensure_scalar: the identity on values
+        self.identity_attrs = set(identity_attrs)   # .values of a DataArray
+        self.inline = dict(inline or {})            # dotted call name -> (qualname of the method in the same file, its parameters)
+
+    LEN = "(IZR (Z.of_nat (List.length cs)))"
 
     # ------------------------------------------------------------------ leaves
     def leaf(self, k, mode):
@@ -101,8 +111,18 @@ class ArrTr:
                     return kind[1]
                 if kind[0] == "ast":
                     return self.ex(kind[1], mode)
-                raise Unsupported("array length %s used outside np.arange" % e.id)
+                if kind[0] == "ignored":
+                    raise Unsupported("use of the opaque argument %s" % e.id)
+                if kind[0] == "leaf":
+                    if mode == "req":
+                        raise Unsupported("unsliced array %s inside a sum over adjacent elements" % e.id)
+                    return self.leaf(kind[1], mode)
+                return V("R", self.LEN, False)      # the common length, as a number
             raise Unsupported("unknown name %s" % e.id)
+        if isinstance(e, ast.Attribute) and _dotted(e) in ("np.pi", "math.pi"):
+            return V("R", "PI", False)
+        if isinstance(e, ast.Attribute) and e.attr in self.identity_attrs:
+            return self.ex(e.value, mode)
         if isinstance(e, ast.Subscript):
             if mode != "req":
                 raise Unsupported("slice outside a .sum() over adjacent elements, or nested slice")
@@ -206,9 +226,25 @@ class ArrTr:
                     raise Unsupported("unsliced index array inside a sum over adjacent elements")
                 return V("Z", "(l0 + 1)%Z" if mode == "hi" else "l0", True)
             raise Unsupported("np.arange of something other than the array length")
+        if d in self.inline:
+            return self.inline_call(e, mode)
         if len(e.args) != 1:
             raise Unsupported("call %s" % d)
+        if d in ("np.mean", "mean"):
+            if mode is not None:
+                raise Unsupported("nested reduction")
+            v = self.ex(e.args[0], None)
+            if not v.arr or v.ty == "C":
+                raise Unsupported("np.mean of something that is not a real array")
+            self.nsum += 1
+            nm = "sum%d" % self.nsum
+            self.lets.append("let %s := asum (fun (l0 : Z) (c : @E@) => %s) 0 cs in\n  " % (nm, toR(v).code))
+            return V("R", "(%s / %s)" % (nm, self.LEN), False)
         v = self.ex(e.args[0], mode)
+        if d in self.identity_calls:
+            return v
+        if d in ("np.log", "log"):
+            return V("R", "(ln %s)" % toR(v).code, v.arr)
         if d in ("np.abs", "abs", "np.absolute"):
             if v.ty == "C":
                 return V("R", "(sqrt (%s * %s + %s * %s))" % (v.code[0], v.code[0], v.code[1], v.code[1]), v.arr)
@@ -222,10 +258,54 @@ class ArrTr:
             return V("C", (z.code[0], "(- %s)" % z.code[1]), v.arr)
         raise Unsupported("call %s" % d)
 
+    def inline_call(self, e, mode):
+        """a method of the same class whose body is [docstring] [name = <opaque call>(...)]* return <expr>: read with its
+        parameters bound to the argument expressions"""
+        qual, params = self.inline[_dotted(e.func)]
+        fn = find_function(self.tree, qual)
+        pyargs = [x.arg for x in fn.args.args if x.arg != "self"]
+        if pyargs != list(params) or len(e.args) != len(params) or fn.args.defaults or fn.args.vararg or fn.args.kwarg:
+            raise Unsupported("signature / call of %s" % qual)
+        saved = dict(self.env)
+        try:
+            for pn, a in zip(params, e.args):
+                if isinstance(a, ast.Name) and a.id in [n for n, _ in self.arrays]:
+                    self.env[pn] = ("leaf", [n for n, _ in self.arrays].index(a.id))
+                elif isinstance(a, ast.Name) and a.id in saved:
+                    self.env[pn] = saved[a.id]
+                elif isinstance(a, ast.Name):
+                    self.env[pn] = ("ignored",)
+                else:
+                    raise Unsupported("argument of %s" % qual)
+            for st in fn.body:
+                if isinstance(st, ast.Expr) and isinstance(st.value, ast.Constant) and isinstance(st.value.value, str):
+                    continue
+                if self.opaque_assign(st):
+                    continue
+                if isinstance(st, ast.Return) and st.value is not None:
+                    return self.ex(st.value, mode)
+                raise Unsupported("statement %s in %s" % (type(st).__name__, qual))
+            raise Unsupported("%s does not return" % qual)
+        finally:
+            self.env = saved
+
+    def opaque_assign(self, s):
+        if isinstance(s, ast.Assign) and len(s.targets) == 1 and isinstance(s.targets[0], ast.Name) \
+                and s.targets[0].id in self.opaque and isinstance(s.value, ast.Call) and _dotted(s.value.func) in self.opaque_calls:
+            self.env[s.targets[0].id] = ("leaf", self.opaque[s.targets[0].id])
+            return True
+        return False
+
     # ------------------------------------------------------------------ statements
     def body(self, stmts):
         for s in stmts:
             if isinstance(s, ast.Expr) and isinstance(s.value, ast.Constant) and isinstance(s.value.value, str):
+                continue
+            if self.opaque_assign(s):
+                continue
+            if isinstance(s, ast.Assign) and len(s.targets) == 1 and isinstance(s.targets[0], ast.Name) \
+                    and _dotted(s.value) in self.size_attrs:
+                self.env[s.targets[0].id] = ("len",)
                 continue
             if isinstance(s, ast.Assign) and len(s.targets) == 1 and isinstance(s.targets[0], ast.Name):
                 n = s.targets[0].id
@@ -287,8 +367,10 @@ Definition adjacent {A : Type} (l : list A) : list (A * A) := combine l (tl l).
 """
 
 
-def translate(repo, relpath, qualname, name, arrays):
-    """arrays: [(python parameter name, 'R' | 'C')] in the function's own order.  Returns Gallina text defining
+def translate(repo, relpath, qualname, name, arrays, params=None, **opts):
+    """arrays: [(python name, 'R' | 'C')]: by default exactly the function's parameters, in order.  With [params] (the
+    function's full parameter list without self) the arrays may also be locals bound by an opaque call (opts['opaque']),
+    and parameters that are not arrays may only be handed on to opaque / inlined calls.  Returns Gallina text defining
     `name (cs : list E) : R | list R` with E the tuple of the arrays' generic elements."""
     with open(os.path.join(repo, relpath)) as f:
         tree = ast.parse(f.read())
@@ -296,9 +378,13 @@ def translate(repo, relpath, qualname, name, arrays):
     a = fn.args
     if a.vararg or a.kwarg or a.kwonlyargs or a.posonlyargs or a.defaults:
         raise Unsupported("signature of %s" % qualname)
-    if [x.arg for x in a.args] != [n for n, _ in arrays]:
-        raise Unsupported("signature of %s is %r" % (qualname, [x.arg for x in a.args]))
-    tr = ArrTr(arrays)
+    pyargs = [x.arg for x in a.args if x.arg != "self"]
+    if pyargs != (list(params) if params is not None else [n for n, _ in arrays]):
+        raise Unsupported("signature of %s is %r" % (qualname, pyargs))
+    tr = ArrTr(arrays, tree=tree, **opts)
+    for pn in pyargs:
+        if pn not in [n for n, _ in arrays]:
+            tr.env[pn] = ("ignored",)
     body, rty = tr.body(fn.body)
     E = elem_type(arrays)
     return "Definition %s (cs : list %s) : %s :=\n  %s.\n" % (name, E, rty, body.replace("@E@", E))
